@@ -23,7 +23,8 @@ RULE = (
     "A run = (fault vector over the first k frames crossing the line in either direction, each "
     "from {deliver, drop, detectable corruption, duplicate, stall 3.3 s}) x NCP window {1,2,3} x "
     "traffic pattern {host only, NCP only, both, burst of 4 concurrent host callers} x chunking "
-    "{whole frames, byte-wise}; all 5^k vectors are enumerated for the tier's k, then seeded "
+    "{whole frames, byte-wise, reads coalescing everything that arrives within 2 ms; duplicates in a read of "
+    "their own or in the same read}; all 5^k vectors are enumerated for the tier's k, then seeded "
     "random runs of hundreds of payloads each way at 5-30 % fault rate (frame numbers wrap "
     "dozens of times), then caller cancellations at enumerated wire-event indices crossed with "
     "depth-3 vectors.  Non-trivial = at least one fault was applied; distinct = distinct wire-trace "
@@ -42,7 +43,8 @@ REACH = {
         "wrap_h2n", "wrap_n2h", "cancelled_but_delivered", "host_failed_run",
         "fault_drop_h2n", "fault_corrupt_h2n", "fault_dup_h2n", "fault_stall_h2n",
         "fault_drop_n2h", "fault_corrupt_n2h", "fault_dup_n2h", "fault_stall_n2h",
-        "window_1", "window_2", "window_3", "send_raised", "reactive_send_from_upper_layer_callback"]
+        "window_1", "window_2", "window_3", "send_raised", "reactive_send_from_upper_layer_callback",
+        "reads_coalesced", "duplicate_in_one_read"]
     for t in ("quick", "thorough")
 }
 SHARD_TIMEOUT = {"quick": 900, "thorough": 3600}
@@ -95,6 +97,7 @@ def run_case(case):
         rnd = random.Random(case.get("seed", 0))
         line = Line(loop, trace, vector=case.get("vector", ()), rate=case.get("rate", 0.0),
                     seed=case.get("seed", 0) + 17, chunking=case.get("chunking", "whole"))
+        line.dup_in_one_read = bool(case.get("dup1"))
         up = Upper(trace, clock)
         proto = ash.AshProtocol(up)
         tr = HostTransport(line)
@@ -366,6 +369,10 @@ def run_one(acc: Acc, case):
         for f, n in fs.items():
             acc.hit(f"fault_{f}_{d}", n)
     acc.hit("window_%d" % case.get("window", 1))
+    if case.get("chunking") == "coalesce":
+        acc.hit("reads_coalesced")
+    if case.get("dup1") and any(e[4] == "dup" for e in lines):
+        acc.hit("duplicate_in_one_read")
     if info.get("reactive_sends"):
         acc.hit("reactive_send_from_upper_layer_callback", info["reactive_sends"])
     if any(e[4] != "ok" for e in lines):
@@ -399,8 +406,13 @@ def gen_cases(tier, seed):
                     chs = chunkings if (sum((i + 1) * FAULTS.index(v) for i, v in enumerate(vec)) + w) % 4 == 0 else ["whole"]
                 else:
                     chs = chunkings if (sum((i + 1) * FAULTS.index(v) for i, v in enumerate(vec)) + w) % 2 == 0 else ["whole"]
+                h_ = sum((i + 2) * FAULTS.index(v) for i, v in enumerate(vec)) + w
                 for ch in chs:
-                    cases.append(dict(tp, vector=list(vec), window=w, chunking=ch, seed=seed, traffic=tname))
+                    cases.append(dict(tp, vector=list(vec), window=w, chunking=ch, seed=seed, traffic=tname,
+                                      dup1=(h_ % 2 == 0)))
+                if h_ % (6 if tier == "quick" else 3) == 1:
+                    # reads that coalesce everything arriving within 2 ms (several frames per read)
+                    cases.append(dict(tp, vector=list(vec), window=w, chunking="coalesce", seed=seed, traffic=tname, dup1=True))
     # cancellation points x depth-3 vectors
     kc = 3
     for vec in itertools.product(FAULTS, repeat=kc):
@@ -409,7 +421,8 @@ def gen_cases(tier, seed):
                 for delay in (0.0, 0.5, 1.7):
                     for nn in (0, 2):
                         cases.append(dict(nh=4, nn=nn, burst=4, nburst=2, vector=list(vec), window=2,
-                                          chunking="whole", seed=seed, cancel=[[who, at, delay]], traffic="cancel"))
+                                          chunking="coalesce" if (at + who) % 4 == 3 else "whole", dup1=bool(at % 2),
+                                          seed=seed, cancel=[[who, at, delay]], traffic="cancel"))
     # long random runs
     rnd = random.Random(seed)
     nlong = 48 if tier == "quick" else 320
@@ -418,7 +431,7 @@ def gen_cases(tier, seed):
                           nn=rnd.choice([60, 120]) if tier == "quick" else rnd.choice([150, 300]),
                           burst=rnd.choice([1, 2, 4]), nburst=rnd.choice([1, 2, 3]),
                           rate=rnd.choice([0.05, 0.1, 0.2, 0.3]), window=1 + i % 3,
-                          chunking=rnd.choice(["whole", "whole", "byte", "split2"]),
+                          chunking=rnd.choice(["whole", "whole", "byte", "split2", "coalesce"]), dup1=bool(i % 2),
                           ack_delay=rnd.choice([0.0, 0.02]), seed=seed * 1000 + i, traffic="long",
                           cancel=[[rnd.randrange(60), rnd.randrange(400), rnd.choice([0.0, 0.3, 1.0])]
                                   for _ in range(6)]))
